@@ -28,8 +28,26 @@ def dec2(ll, ncols):
 
 
 # ---------------------------------------------------------------------------------------------- tree utilities
-BIN = ("add", "sub", "mul", "vdot")
+BIN = ("add", "sub", "mul", "vdot", "bil", "varcov")
 UN = ("scale", "addc", "mulc", "ptw", "lin", "sum", "getKey", "putKey", "sqnorm", "quad", "gauss")
+
+
+def bil_info(t):
+    """two-operand einsum `ss` on operand shapes -> (m, na, nb, T[m, na, nb], output shape); operands are flattened"""
+    sa, sb = [tuple(x) for x in t["shapes"]]
+    na, nb = int(np.prod(sa)), int(np.prod(sb))
+    out0 = np.einsum(t["ss"], np.zeros(sa), np.zeros(sb))
+    oshape = out0.shape
+    m = int(np.prod(oshape)) if len(oshape) else 1
+    T = np.zeros((m, na, nb))
+    for i in range(na):
+        ea = np.zeros(na)
+        ea[i] = 1
+        for j in range(nb):
+            eb = np.zeros(nb)
+            eb[j] = 1
+            T[:, i, j] = np.einsum(t["ss"], ea.reshape(sa), eb.reshape(sb)).ravel()
+    return m, na, nb, T, oshape
 
 
 def keys_read(t):
@@ -52,6 +70,31 @@ def keys_read(t):
 def expand(t):
     """`pinsert` = `F @ G` where G's target differs from F's domain (Operator.partial_insert):
     (F + id on the keys of G's target that F does not read) o (G + id on the keys F reads that G does not produce)"""
+    if t["t"] == "integrate":
+        # IntegrationOperator: weight with the volume element, then sum
+        return dict(t="sum", a=dict(t="scale", c=t["vol"], a=t["a"]))
+    if t["t"] in ("addcm", "mulcm"):
+        # Adder / makeOp with a MultiField on a multi-domain operand: key-wise
+        out = None
+        for k in sorted(t["C"]):
+            inner = dict(t="getKey", k=k, a=t["a"])
+            node = (dict(t="addc", c=t["C"][k], neg=t["neg"], a=inner) if t["t"] == "addcm" else dict(t="mulc", d=t["C"][k], a=inner))
+            leaf = dict(t="putKey", k=k, a=node)
+            out = leaf if out is None else dict(t="add", a=out, b=leaf)
+        return out
+    if t["t"] == "ptwa":
+        # point-wise functions with ARRAY parameters (Field arguments of `ptw`), expressed with scalar-parameter entries
+        f, P, a = t["f"], t["P"], t["a"]
+        if f == "power":            # a_i ** e_i = exp(e_i * log a_i)
+            return dict(t="ptw", f="exp", p=[], a=dict(t="mulc", d=P[0], a=dict(t="ptw", f="log", p=[], a=a)))
+        if f == "exponentiate":     # b_i ** a_i = exp(log(b_i) * a_i)
+            return dict(t="ptw", f="exp", p=[], a=dict(t="mulc", d=[float(np.log(b)) for b in P[0]], a=a))
+        if f == "clip":             # lo + (hi-lo) * clip((a-lo)/(hi-lo), 0, 1)
+            lo, hi = P
+            w = [h - l for l, h in zip(lo, hi)]
+            inner = dict(t="mulc", d=[1.0 / x for x in w], a=dict(t="addc", c=lo, neg=True, a=a))
+            return dict(t="addc", c=lo, neg=False, a=dict(t="mulc", d=w, a=dict(t="ptw", f="clip", p=[0.0, 1.0], a=inner)))
+        raise ValueError(f)
     if t["t"] != "pinsert":
         return t
     k1, k2 = keys_read(t["f"]), dom(t["g"])
@@ -109,8 +152,11 @@ def dom(t):
         return dom(t["a"])
     if k == "lin":
         return {"": t["m"]}
-    if k in ("sum", "vdot", "sqnorm", "quad", "gauss"):
+    if k in ("sum", "vdot", "sqnorm", "quad", "gauss", "varcov"):
         return {"": 0}          # size 0 = the scalar domain (one entry)
+    if k == "bil":
+        m, _, _, _, oshape = bil_info(t)
+        return {"": m if len(oshape) else 0}
     if k == "getKey":
         return {"": dom(t["a"])[t["k"]]}
     if k == "putKey":
@@ -137,6 +183,10 @@ def fl(a):
 def ship(t):
     """tree with python floats -> tree with bit patterns (what the Lean driver reads)"""
     t = expand(t)
+    if t["t"] == "bil":
+        m, na, nb, T, _ = bil_info(t)
+        return dict(t="bil", m=m, na=na, nb=nb, T=[[[f2b(x) for x in row] for row in mat] for mat in T],
+                    a=ship(t["a"]), b=ship(t["b"]))
     r = {}
     for k, v in t.items():
         if k in ("a", "b", "f", "g") and isinstance(v, dict):
@@ -169,7 +219,9 @@ class Builder:
             return ift.DomainTuple.scalar_domain()
         return ift.DomainTuple.make(ift.UnstructuredDomain(n) if self.space == "U" else ift.RGSpace(n))
 
-    def field(self, vals):
+    def field(self, vals, im=None):
+        if im is not None:
+            return self.ift.makeField(self.sp(len(vals)), np.asarray(vals, dtype=np.float64) + 1j * np.asarray(im, dtype=np.float64))
         return self.ift.makeField(self.sp(len(vals)), np.asarray(vals, dtype=np.float64))
 
     def mdom(self, d):
@@ -208,6 +260,54 @@ class Builder:
             return self.build(t["a"]["b"]["a"]) ** self.build(t["a"]["a"])
         if k == "ptw" and t["f"] == "exponentiate" and self.flip(t, "rpow"):
             return t["p"][0] ** self.build(t["a"])
+        if "c_im" in t or "d_im" in t or "rows_im" in t:
+            # complex constants (complex mode of C03): plain constructors
+            a = self.build(t["a"])
+            if k == "scale":
+                return a.scale(complex(t["c"], t["c_im"]))
+            if k == "addc":
+                return ift.Adder(self.field(t["c"], t["c_im"]), neg=t["neg"]) @ a
+            if k == "mulc":
+                return ift.makeOp(self.field(t["d"], t["d_im"])) @ a
+            if k == "lin":
+                m = (np.array(t["rows"], dtype=np.float64) + 1j * np.array(t["rows_im"], dtype=np.float64)).reshape(t["m"], t["n"])
+                if t["m"] == t["n"]:
+                    return ift.MatrixProductOperator(self.sp(t["n"]), m) @ a
+                return dense_op(ift, self.sp(t["n"]), self.sp(t["m"]), m) @ a
+        # einsum.py / jax_operator.py spellings of modelled nodes
+        if k == "lin" and "rows_im" not in t and self.flip(t, "lineinsum"):
+            m = np.array(t["rows"], dtype=np.float64).reshape(t["m"], t["n"])
+            dm = ift.DomainTuple.make((self.sp(t["m"])[0], self.sp(t["n"])[0]))
+            mf = ift.MultiField.from_dict({"mat": ift.makeField(dm, m)})
+            L = ift.LinearEinsum(self.sp(t["n"]), mf, "ij,j->i", key_order=("mat",))
+            if t["a"]["t"] == "ptw" and self.flip(t, "ptwpre") and "p" in t["a"]:
+                return L.ptw_pre(t["a"]["f"], *t["a"]["p"]) @ self.build(t["a"]["a"])      # Operator.ptw_pre
+            return L @ self.build(t["a"])
+        if k == "mulc" and "d_im" not in t and self.flip(t, "staticeinsum"):
+            n = len(t["d"])
+            mle = ift.MultiLinearEinsum(ift.MultiDomain.make({"e0": self.sp(n)}), "i,i->i", key_order=("st", "e0"),
+                                        static_mf=ift.MultiField.from_dict({"st": self.field(t["d"])}))
+            return mle @ self.build(t["a"]).ducktape_left("e0")
+        if (k == "bil" and t["ss"] == "i,i->i" and t["a"]["t"] == "bil" and t["a"]["ss"] == "i,i->i"
+                and self.flip(t, "einsum3")):
+            n = t["shapes"][0][0]
+            dn = ift.DomainTuple.make(ift.UnstructuredDomain(n))
+            parts = [t["a"]["a"], t["a"]["b"], t["b"]]
+            G = None
+            for i, sub in enumerate(parts):
+                o = self.build(sub).ducktape_left(dn).ducktape_left(f"e{i}")
+                G = o if G is None else G + o
+            mle = ift.MultiLinearEinsum(ift.MultiDomain.make({f"e{i}": dn for i in range(3)}), "i,i,i->i",
+                                        key_order=("e0", "e1", "e2"))
+            return (mle @ G).ducktape_left(self.sp(n))
+        if (k == "ptw" and t["f"] in ("exp", "sin", "cos", "tanh", "sinh", "cosh", "arctan") and self.flip(t, "jax")
+                and self.flip(t, "jax2") and self.flip(t, "jax3")):
+            a = self.build(t["a"])
+            if not hasattr(a.target, "keys"):
+                import jax
+                jax.config.update("jax_enable_x64", True)
+                import jax.numpy as jnp
+                return ift.JaxOperator(a.target, a.target, getattr(jnp, t["f"])) @ a
         if k == "scale" and t["c"] == -1.0 and self.flip(t, "neg"):
             return -self.build(t["a"])
         if k == "scale" and self.flip(t, "nummul"):
@@ -254,6 +354,36 @@ class Builder:
             return self.build(t["a"])[t["k"]]
         if k == "putKey":
             return self.build(t["a"]).ducktape_left(t["k"])
+        if k == "integrate":
+            return self.build(t["a"]).integrate()
+        if k == "ptwa":
+            return self.build(t["a"]).ptw(t["f"], *[self.field(P) for P in t["P"]])
+        if k in ("addcm", "mulcm"):
+            a = self.build(t["a"])
+            mf = ift.MultiField.from_dict({kk: self.field(v) for kk, v in t["C"].items()})
+            if k == "addcm":
+                return (ift.Adder(mf, neg=t["neg"]) @ a) if self.flip(t, "adder") else ((a - mf) if t["neg"] else (a + mf))
+            return (ift.makeOp(mf) @ a) if self.flip(t, "makeop") else (a * mf)
+        if k == "bil":
+            m, na, nb, T, oshape = bil_info(t)
+            sa, sb = [tuple(x) for x in t["shapes"]]
+            da = ift.DomainTuple.make(tuple(ift.UnstructuredDomain(n) for n in sa))
+            db = ift.DomainTuple.make(tuple(ift.UnstructuredDomain(n) for n in sb))
+            A = self.build(t["a"]).ducktape_left(da).ducktape_left("e0")
+            B = self.build(t["b"]).ducktape_left(db).ducktape_left("e1")
+            mle = ift.MultiLinearEinsum(ift.MultiDomain.make({"e0": da, "e1": db}), t["ss"], key_order=("e0", "e1"))
+            op = mle @ (A + B)
+            if len(oshape) != 0:
+                op = op.ducktape_left(self.sp(m))
+            return op
+        if k == "varcov":
+            n = t["n"]
+            a, b = t["a"], t["b"]
+            if (not self.single and a["t"] == "var" and b["t"] == "var" and a["k"] != b["k"]):
+                # the energy directly on two input keys: its own simplification rule applies (C04)
+                return ift.VariableCovarianceGaussianEnergy(self.sp(n), a["k"], b["k"], np.float64)
+            E = ift.VariableCovarianceGaussianEnergy(self.sp(n), "r_", "i_", np.float64)
+            return E @ (self.build(a).ducktape_left("r_") + self.build(b).ducktape_left("i_"))
         if k == "pinsert":
             inner = Builder(keys_read(t["f"]), self.space)
             F, G = inner.build(t["f"]), self.build(t["g"])
@@ -437,6 +567,14 @@ def _pyeval(t, env):
     if k == "mul":
         a, b = pyeval(t["a"], env), pyeval(t["b"], env)
         return {key: a[key] * b[key] for key in a}
+    if k == "bil":
+        a, b = pyeval(t["a"], env)[""], pyeval(t["b"], env)[""]
+        sa, sb = [tuple(x) for x in t["shapes"]]
+        return {"": np.atleast_1d(np.einsum(t["ss"], a.reshape(sa), b.reshape(sb))).ravel()}
+    if k == "varcov":
+        a, b = pyeval(t["a"], env)[""], pyeval(t["b"], env)[""]
+        with np.errstate(all="ignore"):
+            return {"": np.array([0.5 * (np.sum(a * a * b) - np.sum(np.log(b)))])}
     a = pyeval(t["a"], env) if "a" in t else None
     if k == "scale":
         return {key: t["c"] * v for key, v in a.items()}
@@ -571,6 +709,35 @@ class Gen:
                 out = pyeval(t, env)[""]
                 if _ok_all(out) and np.all(np.abs(pyeval(t["a"], env)[""]) < 4):
                     return t
+        if c < 0.655 and depth >= 2:
+            # a two-operand einsum (MultiLinearEinsum / outer) with an output of size n
+            k2 = r.choice([1, 2, 3])
+            pats = [("i,i->i", [[n], [n]]), ("i,ij->j", [[k2], [k2, n]]), ("ij,j->i", [[n, k2], [k2]]),
+                    ("ij,ij->j", [[k2, n], [k2, n]]), ("ij,jk->ik", [[n, k2], [k2, 1]])]
+            for p_ in range(1, n + 1):
+                if n % p_ == 0:
+                    pats.append(("i,j->ij", [[p_], [n // p_]]))
+            ss, shapes = r.choice(pats)
+            return dict(t="bil", ss=ss, shapes=shapes, a=self.single(int(np.prod(shapes[0])), env, depth - 2),
+                        b=self.single(int(np.prod(shapes[1])), env, depth - 2))
+        if c < 0.66 and r.random() < 0.5:
+            # point-wise entries with array-valued parameters
+            a = self.single(n, env, depth - 1)
+            va = pyeval(a, env)[""]
+            f = r.choice(["power", "exponentiate", "clip"])
+            if f == "power" and np.all(va > 0.2) and np.all(va < 6):
+                t = dict(t="ptwa", f=f, P=[[r.choice([-1.5, -1.0, 0.5, 1.5, 2.0, 3.0]) for _ in range(n)]], a=a)
+            elif f == "exponentiate" and np.all(np.abs(va) < 4):
+                t = dict(t="ptwa", f=f, P=[[r.choice([0.5, 0.75, 1.5, 2.0, 2.5]) for _ in range(n)]], a=a)
+            elif f == "clip" and _ok_all(va):
+                lo = [self.dy(-1.5, 0.5) for _ in range(n)]
+                hi = [l + r.choice([0.5, 1.0, 2.0]) for l in lo]
+                t = dict(t="ptwa", f=f, P=[lo, hi], a=a) if (np.all(np.abs(va - np.array(lo)) > 0.05)
+                                                               and np.all(np.abs(va - np.array(hi)) > 0.05)) else None
+            else:
+                t = None
+            if t is not None and _ok_all(pyeval(t, env)[""]):
+                return t
         if c < 0.66:
             return dict(t="scale", c=r.choice([-2.0, -1.0, -1.0, -0.5, 0.25, 0.5, 1.5, 2.0, 3.0]), a=self.single(n, env, depth - 1))
         if c < 0.72:
@@ -610,6 +777,19 @@ class Gen:
         if r.random() < 0.3:
             t2 = self.ptw_node(t, env)
             t = t2 if t2 is not None else t
+        if r.random() < 0.2 and depth >= 2:
+            # _OpProd of two multi-domain operators with the same target
+            u = None
+            for k, n in sizes.items():
+                leaf = dict(t="putKey", k=k, a=self.single(n, env, depth - 2))
+                u = leaf if u is None else dict(t="add", a=u, b=leaf)
+            t = dict(t="mul", a=t, b=u)
+        if r.random() < 0.25:
+            # Adder / makeOp with a MultiField
+            if r.random() < 0.5:
+                t = dict(t="addcm", C={k: self.vec(n) for k, n in sizes.items()}, neg=r.random() < 0.5, a=t)
+            else:
+                t = dict(t="mulcm", C={k: self.vec(n, nz=True) for k, n in sizes.items()}, a=t)
         return t
 
     def scalar(self, env, depth):
@@ -626,6 +806,10 @@ class Gen:
             t = self.ptw_node(a, env)
             return t if t is not None else a
         c = r.random()
+        if c < 0.08:
+            return dict(t="bil", ss="i,i->", shapes=[[n], [n]], a=self.single(n, env, depth - 1), b=self.single(n, env, depth - 1))
+        if c < 0.2 and getattr(self, "space", "U") == "R" and r.random() < 0.6:
+            return dict(t="integrate", vol=1.0 / n, a=self.single(n, env, depth - 1))
         if c < 0.2:
             return dict(t="sum", a=self.single(n, env, depth - 1))
         if c < 0.4:
@@ -634,7 +818,100 @@ class Gen:
             return dict(t="sqnorm", a=self.single(n, env, depth - 1))
         if c < 0.7:
             return dict(t="quad", d=self.vec(n, 0.25, 2), a=self.single(n, env, depth - 1))
+        if c < 0.82:
+            v = self.varcov(env, depth - 1)
+            if v is not None:
+                return v
         return dict(t="gauss", data=self.vec(n), icov=self.vec(n, 0.25, 2), a=self.single(n, env, depth - 1))
+
+    def linear(self, n, env, depth):
+        """a LINEAR single-domain tree of size n (the library builds SumOperator / ChainOperator objects with explicit
+        negation flags for these)"""
+        r = self.rng
+        keys_n = [k for k, v in env.items() if len(v) == n]
+        if depth <= 0 or r.random() < 0.25:
+            if keys_n and r.random() < 0.7:
+                return dict(t="var", k=r.choice(keys_n), n=n)
+            k = r.choice(sorted(env))
+            m = len(env[k])
+            return dict(t="lin", m=n, n=m, rows=[self.vec(m, -1, 1) for _ in range(n)], a=dict(t="var", k=k, n=m))
+        c = r.random()
+        if c < 0.45:
+            t = self.linear(n, env, depth - 1)
+            for _ in range(r.choice([1, 1, 2])):
+                t = dict(t=r.choice(["add", "sub", "sub"]), a=t, b=self.linear(n, env, depth - 1))
+            return t
+        if c < 0.6:
+            return dict(t="scale", c=r.choice([-2.0, -1.0, -0.5, 0.5, 2.0, 3.0]), a=self.linear(n, env, depth - 1))
+        if c < 0.72:
+            return dict(t="mulc", d=self.vec(n, nz=True), a=self.linear(n, env, depth - 1))
+        if c < 0.86:
+            m = r.choice([1, 2, 3])
+            return dict(t="lin", m=n, n=m, rows=[self.vec(m, -1, 1) for _ in range(n)], a=self.linear(m, env, depth - 1))
+        ks = r.sample(["p", "q", "r"], r.choice([1, 2]))
+        sizes = {k: (n if i == 0 else r.choice([1, 2, 3])) for i, k in enumerate(ks)}
+        return dict(t="getKey", k=ks[0], a=self.linmulti(sizes, env, depth - 1))
+
+    def linmulti(self, sizes, env, depth):
+        """a LINEAR tree with a multi-domain target: signed sums of adapters, e.g. A('a')->'x' - B('b')->'x' + C('c')->'y'"""
+        r = self.rng
+        terms = []
+        for k, n in sizes.items():
+            for _ in range(r.choice([1, 2, 2, 3])):
+                terms.append(dict(t="putKey", k=k, a=self.linear(n, env, depth - 1)))
+        r.shuffle(terms)
+        t = terms[0]
+        if r.random() < 0.3:
+            t = dict(t="scale", c=-1.0, a=t)
+        for u in terms[1:]:
+            t = dict(t=r.choice(["add", "sub", "sub"]), a=t, b=u)
+        return t
+
+    def linear_case(self, env, depth):
+        """linear expressions as whole operators and as sub-expressions of non-linear ones / energies"""
+        r = self.rng
+        sizes = {k: r.choice([1, 2, 3]) for k in r.sample(["x", "y", "z"], r.choice([1, 2, 2]))}
+        c = r.random()
+        if c < 0.3:
+            return self.linmulti(sizes, env, depth)
+        if c < 0.4:
+            return self.linear(r.choice([1, 2, 3]), env, depth)
+        g = self.linmulti(sizes, env, depth - 1)
+        k0 = sorted(sizes)[0]
+        inner = dict(t="getKey", k=k0, a=g)
+        n = sizes[k0]
+        if c < 0.6:
+            return dict(t="gauss", data=self.vec(n), icov=self.vec(n, 0.25, 2), a=inner)
+        if c < 0.7:
+            return dict(t="sqnorm", a=inner)
+        if c < 0.85:
+            t = self.ptw_node(inner, env)
+            return t if t is not None else inner
+        env2 = pyeval(g, env)
+        if all(_ok_all(v) for v in env2.values()):
+            return dict(t="chain", f=self.scalar(env2, depth - 1) if r.random() < 0.5 else self.single(r.choice([1, 2]), env2, depth - 1), g=g)
+        return g
+
+    def varcov(self, env, depth):
+        """VariableCovarianceGaussianEnergy on (residual, inverse covariance > 0)"""
+        r = self.rng
+        if len(env) >= 2 and r.random() < 0.5:
+            # directly on two input keys of equal size (inverse-covariance key must be positive)
+            ks = [k for k in sorted(env)]
+            for ka in ks:
+                for kb in ks:
+                    if ka != kb and len(env[ka]) == len(env[kb]) and np.all(env[kb] > 0.2):
+                        return dict(t="varcov", n=len(env[ka]), a=dict(t="var", k=ka, n=len(env[ka])),
+                                    b=dict(t="var", k=kb, n=len(env[kb])))
+        n = r.choice([1, 2, 3])
+        a = self.single(n, env, depth - 1)
+        for _ in range(6):
+            b0 = self.single(n, env, depth - 1)
+            b = dict(t="ptw", f="exp", p=[], a=b0)
+            vb = pyeval(b0, env)[""]
+            if np.all(np.abs(vb) < 2.5):
+                return dict(t="varcov", n=n, a=a, b=b)
+        return None
 
     def case(self, max_nodes=16):
         r = self.rng
@@ -644,12 +921,21 @@ class Gen:
             else:
                 ks = r.sample(["a", "b", "c"], r.choice([2, 3]))
                 env = {k: np.array(self.vec(r.choice([1, 2, 3]))) for k in ks}
+                if r.random() < 0.4:
+                    # a positive key of the same size as another one (inverse covariances, arguments of log/sqrt)
+                    k1, k2 = r.sample(ks, 2)
+                    env[k2] = np.array(self.vec(len(env[k1]), 0.25, 3.0))
             depth = r.choice([2, 3, 3, 4, 4, 5])
+            self.space = r.choice(["U", "U", "R"])
             c = r.random()
             wm = r.random() < 0.6
             if c < 0.15:
                 # metric stream: sums of (scaled) likelihood energies, possibly behind a multi-domain chain
                 def lh(env, d):
+                    if r.random() < 0.3:
+                        v = self.varcov(env, d)
+                        if v is not None:
+                            return v
                     n = r.choice([1, 2, 3])
                     t = dict(t="gauss", data=self.vec(n), icov=self.vec(n, 0.25, 2), a=self.single(n, env, d))
                     return dict(t="scale", c=r.choice([0.5, 2.0, 3.0]), a=t) if r.random() < 0.25 else t
@@ -666,6 +952,8 @@ class Gen:
                     for _ in range(r.choice([1, 1, 2])):
                         t = dict(t="add", a=t, b=lh(env, depth - 2))
                 wm = r.random() < 0.85
+            elif c < 0.27 and r.random() < 0.5:
+                t = self.linear_case(env, min(depth, 3))
             elif c < 0.27 and len(env) >= 2 and depth >= 3:
                 # Operator.partial_insert: F @ G with G.target != F.domain (both multi-domain)
                 gk = r.sample(["u", "v"], r.choice([1, 2]))
@@ -696,7 +984,7 @@ class Gen:
             if not all(_ok_all(v) for v in out.values()):
                 continue
             return dict(indom={k: len(v) for k, v in env.items()}, x={k: fl(v) for k, v in env.items()}, expr=strip(t),
-                        wm=wm, space=r.choice(["U", "U", "R"]))
+                        wm=wm, space=self.space)
         raise RuntimeError("generator exhausted")
 
 
@@ -706,6 +994,7 @@ def lin_arith(b, t, base, rng=None):
     `sum`, `__getitem__`, `__truediv__`, `__pow__`, `__neg__`, scalar and field operands) instead of building an
     operator tree; nodes without a Linearization method apply the one-node operator to the Linearization."""
     ift = b.ift
+    t0 = t
     t = expand(t)
     k = t["t"]
     rec = lambda s: lin_arith(b, s, base, rng)
@@ -747,6 +1036,35 @@ def lin_arith(b, t, base, rng=None):
         if t["f"] == "exp" and t["a"]["t"] == "mul" and t["a"]["b"]["t"] == "ptw" and t["a"]["b"]["f"] == "log":
             return rec(t["a"]["b"]["a"]) ** rec(t["a"]["a"])        # __pow__ with a Linearization exponent
         return la.ptw(t["f"], *t["p"])
+    if t0["t"] in ("addcm", "mulcm"):
+        la = lin_arith(b, t0["a"], base, rng)
+        mf = ift.MultiField.from_dict({kk: b.field(v) for kk, v in t0["C"].items()})
+        if t0["t"] == "addcm":
+            return (la - mf) if t0["neg"] else (la + mf)
+        return la * mf
+    if t0["t"] == "ptwa":
+        la = lin_arith(b, t0["a"], base, rng)
+        if t0["f"] == "power" and (rng is None or rng.random() < 0.5):
+            return la ** b.field(t0["P"][0])                          # __pow__ with a Field exponent
+        return la.ptw(t0["f"], *[b.field(P) for P in t0["P"]])
+    if k == "bil":
+        from nifty.cl.operators.simple_linear_operators import DomainChangerAndReshaper
+        m, na, nb, T, oshape = bil_info(t)
+        sa, sb = [tuple(x) for x in t["shapes"]]
+        la, lb = rec(t["a"]), rec(t["b"])
+        if t["ss"] == "i,j->ij":
+            r = la.outer(lb)                                          # Linearization.outer
+            return DomainChangerAndReshaper(r.target, b.sp(m))(r)
+        da = ift.DomainTuple.make(tuple(ift.UnstructuredDomain(n) for n in sa))
+        db = ift.DomainTuple.make(tuple(ift.UnstructuredDomain(n) for n in sb))
+        A = ift.FieldAdapter(da, "e0").adjoint(DomainChangerAndReshaper(la.target, da)(la))
+        B = ift.FieldAdapter(db, "e1").adjoint(DomainChangerAndReshaper(lb.target, db)(lb))
+        mle = ift.MultiLinearEinsum(ift.MultiDomain.make({"e0": da, "e1": db}), t["ss"], key_order=("e0", "e1"))
+        r = mle(A + B)
+        return r if len(oshape) == 0 else DomainChangerAndReshaper(r.target, b.sp(m))(r)
+    if k == "varcov":
+        la, lb = rec(t["a"]), rec(t["b"])
+        return 0.5 * ((la * (la * lb)).sum() - lb.ptw("log").sum())
     if k == "lin":
         m = np.array(t["rows"], dtype=np.float64).reshape(t["m"], t["n"])
         L = (ift.MatrixProductOperator(b.sp(t["n"]), m) if t["m"] == t["n"] else dense_op(ift, b.sp(t["n"]), b.sp(t["m"]), m))
@@ -822,3 +1140,154 @@ def subsets(keys):
     keys = sorted(keys)
     n = len(keys)
     return [[keys[i] for i in range(n) if (m >> i) & 1] for m in range(1, (1 << n) - 1)]
+
+
+# ---------------------------------------------------------------------------------------------- class E (exact)
+RATIONAL_PTW = {"abs", "absolute", "sign", "unitstep", "clip"}
+
+
+def _dy_bits(x):
+    """significant bits of a dyadic float (None if |x| is not a small dyadic number)"""
+    from fractions import Fraction
+    f = Fraction(float(x))
+    if f == 0:
+        return 0
+    if f.denominator & (f.denominator - 1):
+        return None
+    return abs(f.numerator).bit_length() + (f.denominator.bit_length() - 1 if abs(f) < 1 else 0)
+
+
+def exact_bits(t):
+    """Upper bound on the significant bits of every intermediate entry when the tree is evaluated on inputs with <= 6
+    bits, or None if the tree is not a polynomial / piecewise-linear expression with dyadic constants.  With the bound
+    below 52 every float64 operation on the path (in any association order) is exact: class E applies."""
+    t = expand(t)
+    k = t["t"]
+
+    def cb(vals):
+        bs = [_dy_bits(v) for v in vals]
+        return None if any(b is None or b > 8 for b in bs) else max(bs + [1])
+    sub = [exact_bits(c) for c in children(t)]
+    if any(b is None for b in sub):
+        return None
+    if k == "var":
+        return 6
+    if k in ("add", "sub"):
+        return max(sub) + 1
+    if k == "mul":
+        return sub[0] + sub[1]
+    if k == "scale":
+        c = cb([t["c"]])
+        return None if c is None else sub[0] + c
+    if k == "addc":
+        c = cb(t["c"])
+        return None if c is None else max(sub[0], c) + 1
+    if k == "mulc":
+        c = cb(t["d"])
+        return None if c is None else sub[0] + c
+    if k == "ptw":
+        if t["f"] not in RATIONAL_PTW:
+            return None
+        c = cb(t["p"]) if t["p"] else 1
+        return None if c is None else max(sub[0], c)
+    if k == "lin":
+        c = cb([v for row in t["rows"] for v in row])
+        return None if c is None else sub[0] + c + max(t["n"], 1).bit_length()
+    if k == "sum":
+        return sub[0] + 3
+    if k == "vdot":
+        return sub[0] + sub[1] + 3
+    if k in ("getKey", "putKey"):
+        return sub[0]
+    if k == "chain":
+        # f is evaluated on g's output: its "input bits" are g's bits; bound by composition of the two bounds
+        fb, gb = exact_bits(t["f"]), exact_bits(t["g"])
+        return None if fb is None or gb is None else max(1, fb - 6) * 1 + gb * max(1, (fb + 5) // 6)
+    if k == "sqnorm":
+        return 2 * sub[0] + 3
+    if k == "quad":
+        c = cb(t["d"])
+        return None if c is None else 2 * sub[0] + c + 3
+    if k == "gauss":
+        c, d = cb(t["icov"]), cb(t["data"])
+        return None if c is None or d is None else 2 * (max(sub[0], d) + 1) + c + 3
+    if k == "bil":
+        return sub[0] + sub[1] + 4
+    return None
+
+
+def ship_q(t):
+    """tree with python floats -> exact rationals "p/q" (driver op linq)"""
+    from fractions import Fraction
+    q = lambda x: str(Fraction(float(x)))
+    t = expand(t)
+    if t["t"] == "bil":
+        m, na, nb, T, _ = bil_info(t)
+        return dict(t="bil", m=m, na=na, nb=nb, T=[[[q(x) for x in row] for row in mat] for mat in T],
+                    a=ship_q(t["a"]), b=ship_q(t["b"]))
+    r = {}
+    for k, v in t.items():
+        if k in ("a", "b", "f", "g") and isinstance(v, dict):
+            r[k] = ship_q(v)
+        elif k == "c" and t["t"] == "scale":
+            r[k] = q(v)
+        elif k in ("c", "d", "p", "data", "icov"):
+            r[k] = [q(x) for x in v]
+        elif k == "rows":
+            r[k] = [[q(x) for x in row] for row in v]
+        else:
+            r[k] = v
+    return r
+
+
+# ---------------------------------------------------------------------------------------------- complex mode
+def complexify(t, rng):
+    """copy of a (holomorphic) tree whose constants get small dyadic imaginary parts (`*_im` fields)"""
+    t = expand(t)
+    d = lambda: rng.choice([0, 0, 1, -1, 2, -2]) / 32
+    r = {}
+    for k, v in t.items():
+        r[k] = complexify(v, rng) if (k in ("a", "b", "f", "g") and isinstance(v, dict)) else v
+    k = t["t"]
+    if k == "scale":
+        r["c_im"] = rng.choice([0.0, 0.5, -0.25, 1.0]) if rng.random() < 0.6 else 0.0
+    elif k == "addc":
+        r["c_im"] = [d() for _ in t["c"]]
+    elif k == "mulc":
+        r["d_im"] = [d() for _ in t["d"]]
+    elif k == "lin":
+        r["rows_im"] = [[d() for _ in row] for row in t["rows"]]
+    return r
+
+
+def ship_c(t):
+    """complex tree -> numbers as [re_bits, im_bits] (driver op linc)"""
+    c = lambda re, im=0.0: [f2b(re), f2b(im)]
+    t = expand(t)
+    if t["t"] == "bil":
+        m, na, nb, T, _ = bil_info(t)
+        return dict(t="bil", m=m, na=na, nb=nb, T=[[[c(x) for x in row] for row in mat] for mat in T],
+                    a=ship_c(t["a"]), b=ship_c(t["b"]))
+    r = {}
+    for k, v in t.items():
+        if k.endswith("_im"):
+            continue
+        if k in ("a", "b", "f", "g") and isinstance(v, dict):
+            r[k] = ship_c(v)
+        elif k == "c" and t["t"] == "scale":
+            r[k] = c(v, t.get("c_im", 0.0))
+        elif k in ("c", "d"):
+            im = t.get(k + "_im", [0.0] * len(v))
+            r[k] = [c(x, y) for x, y in zip(v, im)]
+        elif k == "p":
+            r[k] = [c(x) for x in v]
+        elif k == "rows":
+            im = t.get("rows_im", [[0.0] * len(row) for row in v])
+            r[k] = [[c(x, y) for x, y in zip(row, irow)] for row, irow in zip(v, im)]
+        else:
+            r[k] = v
+    return r
+
+
+def decc(l):
+    return np.array([complex(b2f(a), b2f(b)) for a, b in l])
